@@ -17,6 +17,8 @@ CODEC_TRUST = ["Model.Codec hand-written from diam/avp.go, group.go, header.go, 
 
 CONN_TRUST = ["Model.Conn / Model.Shared hand-written from diam/server.go (conn.serve, liveSwitchReader, closeNotify, notifyClientGone, ServeMux.ServeDIAM); goroutine scheduling between library statements is not controlled: the harness drives the real code at transport / handler boundaries and waits for quiescence (goroutine dumps), the theorems cover every interleaving of the model's events"]
 
+CLIENT_TRUST = ["Model.Client hand-written from diam/sm/client.go (handshake, watchdog, dwr, makeCER, makeDWR), cea.go, dwa.go, smparser/cea.go; time is logical in the model (a timer event = the time.After branch of a select being taken); the harness runs the real timers on 30 ms intervals against an event-driven scripted peer, and a verdict that could depend on scheduling delay is re-run alone before it is believed"]
+
 PROPS = {
     "C01": dict(
         domains=[("codec", "build", 12000, 150000), ("codec", "decode", 6000, 80000), ("codec", "frame", 2000, 40000)],
@@ -139,5 +141,19 @@ PROPS = {
         theorems=["DV.Props.C19."+t for t in ["C19_perstream","C19_reference","C19_one_message","C19_complete","C19_gen"]],
         gen_obligations=["Gen.sctpHeaderReads","Gen.sctpHeaderPins","Gen.sctpBodyReads","Gen.sctpAtLeastReads","Gen.connResetsStream","Gen.sctpWriteStreamCalls","Gen.HeaderLength"],
         trusted=CODEC_TRUST + ["Model.Sctp hand-written from diam/network_sctp.go (ReadAny, ReadStream, ReadAtLeast, verifyStreamBuff, bufferStreamData) and message.go readHeader/readBody; the kernel SCTP socket is replaced by the in-memory backend of the 'verif' hook (diam/verif_sctp.go): chunks are delivered in order, a chunk larger than the caller's buffer continues on the next read, every read carries stream information"],
+    ),
+    "C12": dict(
+        domains=[("smclient", "dialall", 1, 1), ("smclient", "dial", 400, 6000), ("smclient", "cea", 3000, 40000)],
+        relevant=["C12:"],
+        theorems=["DV.Props.C12."+t for t in ["C12_bound","C12_outcome","C12_timeout_last","C12_stable","C12_noblock","C12_cer","C12_cea_accept","C12_duplicate_cea_counterexample","C12_late_failure_counterexample","C12_gen"]],
+        gen_obligations=["Gen.capErrc","Gen.ceaHandlerOnce","Gen.handshakeMakeCER","Gen.handshakeWrites","Gen.handshakeCloses","Gen.handshakeLoopCond"],
+        trusted=CLIENT_TRUST,
+    ),
+    "C13": dict(
+        domains=[("smclient", "wd", 400, 6000), ("smserver", "hist", 800, 10000)],
+        relevant=["C13:"],
+        theorems=["DV.Props.C13."+t for t in ["C13_bound","C13_ack_not_lost","C13_responsive","C13_silent","C13_failure_dwa_ignored","C13_drained","C13_lost_ack_counterexample","C13_dwa","C13_gen"]],
+        gen_obligations=["Gen.capDwac","Gen.dwrDrainsFirst","Gen.dwaSendNonBlocking","Gen.dwrMakeDWR","Gen.dwrWrites","Gen.dwrCloses","Gen.dwrLoopCond"],
+        trusted=CLIENT_TRUST,
     ),
 }
